@@ -92,23 +92,29 @@ def run(chk: Check) -> None:
         "cache, gateway id known or not: which devices exist; non-trivial = distinct (config, src, dst, direction)"
     )
 
-    known_sets = [[], [LISTED], [LISTED, LISTED2, BOTH], [LISTED, LISTED2, BOTH, GWY], [LISTED, GWY, FOREIGN]]
+    known_sets = [[], [LISTED], [LISTED, LISTED2, BOTH], [LISTED, LISTED2, BOTH, GWY], [LISTED, GWY, FOREIGN], [GWY], [GWY, FOREIGN]]
     block_sets = [[], [BLOCKED], [BLOCKED, BOTH], [BLOCKED, GWY]]
     actives = [None, GWY, FOREIGN]
     configs = list(itertools.product(known_sets, block_sets, (False, True), actives))
     if not thorough:
         rnd.shuffle(configs)
-        configs = configs[:60]
+        configs = configs[:90]
 
     async def body() -> None:
         loop = asyncio.get_running_loop()
         for known, block, enforce_req, active in configs:
             inc = {k: ({"class": "HGI"} if k[:2] == "18" else {}) for k in known}
             exc_l = {k: {} for k in block}
-            enforce = select_device_filter_mode(enforce_req, inc, exc_l)
-            D.add("filter.mode", [str(enforce_req), ",".join(known)], f"ok\t{bool(enforce)}")
+            enforce_impl = select_device_filter_mode(enforce_req, inc, exc_l)
+            D.add("filter.mode", [str(enforce_req), ",".join(known)], f"ok\t{bool(enforce_impl)}")
+            # what the stack is configured with is the library's own decision; what the property demands is enforcement
+            # whenever it was asked for and there is a list to enforce (a list naming only the gateway is a list)
+            enforce = bool(enforce_req and known)
+            if bool(enforce_impl) != enforce:
+                chk.violation("mode:" + ("not-enforced" if enforce else "enforced-unasked"), f"enforce_known_list={enforce_req} with known_list {known}: "
+                              f"select_device_filter_mode answers {enforce_impl}", {"op": "filter.mode", "known": known, "enforce": enforce_req})
             delivered: list = []
-            protocol = protocol_factory(delivered.append, disable_qos=True, enforce_include_list=enforce, exclude_list=exc_l, include_list=inc)
+            protocol = protocol_factory(delivered.append, disable_qos=True, enforce_include_list=enforce_impl, exclude_list=exc_l, include_list=inc)
             transport = FakeTransport(protocol, loop, active)
             if active is not None:
                 protocol.connection_made(transport, ramses=True)
@@ -134,7 +140,7 @@ def run(chk: Check) -> None:
                 continue
             # the verdict is a function of the configuration and the gateway known *now*, not of what the filter
             # was asked earlier: the same questions before the gateway is identified, then again after
-            p3 = protocol_factory(lambda m: None, disable_qos=True, enforce_include_list=enforce, exclude_list=exc_l, include_list=inc)
+            p3 = protocol_factory(lambda m: None, disable_qos=True, enforce_include_list=enforce_impl, exclude_list=exc_l, include_list=inc)
             t3 = FakeTransport(p3, loop, active)
             pre_active = p3._active_hgi
             for phase in ("before-connect", "after-connect", "after-connect-again"):
@@ -178,7 +184,7 @@ def run(chk: Check) -> None:
             for src in (HGI, active):
                 for dst in rnd.sample([LISTED, UNLISTED, BLOCKED, BOTH, ALL, FOREIGN], 3):
                     # a fresh stack per command: a send whose echo is filtered out keeps the FSM retrying
-                    p2 = protocol_factory(lambda m: None, disable_qos=True, enforce_include_list=enforce, exclude_list=exc_l, include_list=inc)
+                    p2 = protocol_factory(lambda m: None, disable_qos=True, enforce_include_list=enforce_impl, exclude_list=exc_l, include_list=inc)
                     t2 = FakeTransport(p2, loop, active)
                     p2.connection_made(t2, ramses=True)
                     p2.resume_writing()
